@@ -11,7 +11,7 @@
     binary64 value of the Python expression 2.0 / 3.0 (the binary64 instance in
     Model/DistPrimBoxRun.v passes an approximation with relative error ~1e-15).
     [point_to_circle]'s default [epsilon = 1e-6] is the parameter [eps] of the segment version.
-    State of /repo modelled: commit 8d1302d (includes df96822 "line_to_circle must use Eberly's
+    State of /repo modelled: commit 5e40c4a (axis fallback in _line_circle_closest_points; includes df96822 "line_to_circle must use Eberly's
     formula for s_hat": s_hat2 = max((radius_m0_squared * b1_squared) ** (2.0 / 3.0) - b1_squared, 0.0)).
     Same order of floating-point operations as the source.
 
@@ -98,6 +98,11 @@ Section DistPrimCircle.
     let delta := vadd lp (vscale t ld) in
     let line_closest := vadd c delta in
     let delta := vsub delta (vscale (dot n delta) n) in
+    (* /repo fix of FD7: the point of the line lies on the axis up to rounding -> any point of the circle;
+       np.finfo(float).eps ** 2 = 2^-104; `line_closest - center` is recomputed from the rounded sum *)
+    let lc := vsub line_closest c in
+    let delta := if dot delta delta <=? cst (1 # 20282409603651670423947251286016) * fmax one (dot lc lc)
+                 then perpendicular_to_vector n else delta in
     let delta := norm_vector delta in
     let circle_closest := vadd c (vscale r delta) in
     (line_closest, circle_closest).
